@@ -357,6 +357,35 @@ func c03Dispatch(c *mc.Ctx) []c03Family {
 			return b
 		}, bound: "all 256 AF flag bytes x adaptation_field_length 0..183 x 8 extension flag sets x 4 fills x afc {10,11}"})
 
+	// (1b) the same control bytes on PIDs whose units go through the section-completeness test: PAT PID,
+	// a PMT PID announced by a preceding PAT, an SI PID; with and without payload_unit_start
+	patPkt := EncodePkts(Packetize(PSIUnit(0, 0, [][]byte{SecPAT(modelPAT(1, 0x1000), ref.SecHdr{CNI: true})}, nil), nil, new(uint8), true))
+	psiPIDs := []uint16{0x0000, 0x1000, 0x0011}
+	fams = append(fams, c03Family{name: "af-dispatch-psi:", n: 256 * 184 * 2 * 2 * 2 * int64(len(psiPIDs)), cfgs: dataCfgs[:1],
+		gen: func(i int64) []byte {
+			flags := byte(i % 256)
+			i /= 256
+			l := int(i % 184)
+			i /= 184
+			fill := fills[i%2]
+			i /= 2
+			afc := byte(0x20 + 0x10*byte(i%2))
+			i /= 2
+			pusi := byte(0x40 * (i % 2))
+			i /= 2
+			pid := psiPIDs[i]
+			b := make([]byte, 188*2)
+			for k := range b {
+				b[k] = fill
+			}
+			b[0], b[1], b[2], b[3], b[4] = 0x47, pusi|byte(pid>>8), byte(pid), afc|3, byte(l)
+			if l > 0 {
+				b[5] = flags
+			}
+			b[188], b[189], b[190], b[191] = 0x47, pusi|byte(pid>>8), byte(pid), 0x14
+			return append(append([]byte{}, patPkt...), b...)
+		}, bound: "PAT packet, then on PID {0, announced PMT PID, 0x11}: all 256 AF flag bytes x adaptation_field_length 0..183 x 2 fills x afc {10,11} x payload_unit_start {0,1}, then a second packet of that PID"})
+
 	// (2) PES: flag bytes x extension flag byte x header_data_length class x body cut at every length
 	hdlClasses := []int{0, 1, 2, 3, 4} // exact, 0, 1, exact-1/exact+1 alternately, 255
 	f1s := []byte{0x80, 0x00, 0xff, 0x8f, 0xb0, 0x41, 0x04, 0x7e}
